@@ -55,6 +55,7 @@ Matches(e, o) ==
   CASE e.k = "Any"     -> o.k \notin {"Garbage", "None"}
     [] e.k = "None"    -> o.k = "None"
     [] e.k = "ReadNonPositive" -> o.k = "Read" /\ o.n <= 0 /\ o.runs = << >>
+    [] e.k = "ReadDirSubset" -> o.k = "ReadDir" /\ SetOf(o.ents) \subseteq e.ents /\ Len(o.ents) = Cardinality(SetOf(o.ents))
     [] e.k = "ReadDir" -> /\ o.k = "ReadDir"
                           /\ Len(o.ents) = Cardinality(e.ents)
                           /\ SetOf(o.ents) = e.ents
@@ -97,7 +98,7 @@ TraceReq ==
      IN /\ c \in DOMAIN conn
         /\ conn[c].st = "serving"
         /\ e.hang = FALSE
-        /\ \E o \in Handle(conn[c].cs, fs, e.req, aw, views) :
+        /\ \E o \in HandleF(conn[c].cs, fs, e.req, aw, views, e.faults) :
              /\ Matches(o.resp, e.resp)
              /\ o.close = e.closed
              /\ IF e.mut
@@ -107,7 +108,8 @@ TraceReq ==
                      /\ fs' = fs
              /\ IF e.closed
                 THEN e.handles = 0      \* teardown releases everything (LedgerBalanced)
-                ELSE e.handles >= RawHeldMin(o.cs) /\ e.handles <= RawHeldMax(o.cs, o.fs)
+                ELSE \/ e.handles >= RawHeldMin(o.cs) /\ e.handles <= RawHeldMax(o.cs, o.fs)
+                     \/ e.faults > 0 /\ e.handles <= 3 + RawHeldMax(o.cs, o.fs)   \* where a fault leaves the state is unspecified; the ledger is settled at the end
              /\ conn' = StaleOthers([conn EXCEPT ![c] = IF e.closed THEN [st |-> "closed", cs |-> InitCs]
                                                           ELSE [st |-> "serving", cs |-> o.cs]],
                                     c, ChangedDirs(fs, o.fs))
@@ -143,7 +145,13 @@ TraceRealPaths ==
   /\ LET e == Trace[l] IN \A i \in DOMAIN e.paths : UnderRoot(e.rootName, e.paths[i])
   /\ UNCHANGED <<fs, views, aw, conn>>
 
-TraceNext == TraceWorld \/ TraceConnect \/ TraceReq \/ TraceClose \/ TraceProbe \/ TraceSentinel \/ TraceRealPaths
+(* C13: once every connection of the world has ended nothing is left behind *)
+TraceQuiesce ==
+  /\ IsEvent("Quiesce")
+  /\ Trace[l].gor = 0 /\ Trace[l].open = 0
+  /\ UNCHANGED <<fs, views, aw, conn>>
+
+TraceNext == TraceQuiesce \/ TraceWorld \/ TraceConnect \/ TraceReq \/ TraceClose \/ TraceProbe \/ TraceSentinel \/ TraceRealPaths
 
 TraceSpec == TraceInit /\ [][TraceNext]_tvars
 
